@@ -33,7 +33,27 @@ def render(v):
     return " ".join(out)
 
 
+class Tagged:
+    """a value carrying a jsoncons semantic tag (rendered as a @tag suffix on its first token)"""
+    __slots__ = ("tag", "value")
+
+    def __init__(self, tag, value):
+        self.tag = tag
+        self.value = value
+
+    def __eq__(self, other):
+        return isinstance(other, Tagged) and self.tag == other.tag and self.value == other.value
+
+    def __repr__(self):
+        return "Tagged(%r, %r)" % (self.tag, self.value)
+
+
 def _render(v, out):
+    if isinstance(v, Tagged):
+        n = len(out)
+        _render(v.value, out)
+        out[n] = out[n] + "@" + v.tag
+        return
     if v is None:
         out.append("n")
     elif v is True:
@@ -48,6 +68,8 @@ def _render(v, out):
         out.append("d%016x" % v[1])
     elif isinstance(v, tuple) and v[0] == "b":
         out.append("b" + v[1].hex())
+    elif isinstance(v, tuple) and v[0] == "e":
+        out.append("e%04x" % v[1])
     elif isinstance(v, list):
         out.append("[")
         for x in v:
@@ -66,6 +88,10 @@ def _render(v, out):
 def parse(toks, pos=0):
     """returns (value, newpos)"""
     t = toks[pos]
+    if "@" in t:
+        base, tag = t.split("@", 1)
+        v, p2 = parse([base] + toks[pos + 1:], 0)
+        return Tagged(tag, v), pos + p2
     pos += 1
     if t == "n":
         return None, pos
@@ -95,6 +121,8 @@ def parse(toks, pos=0):
         return ("d", int(t[1:], 16)), pos
     if c == "b":
         return ("b", bytes.fromhex(t[1:])), pos
+    if c == "e":
+        return ("e", int(t[1:], 16)), pos
     raise ValueError("bad token %r" % t)
 
 
@@ -110,6 +138,8 @@ def parse_all(s):
 
 def canon(v):
     """JSON-value canonical form: object members sorted by key (for order-insensitive equality)."""
+    if isinstance(v, Tagged):
+        return Tagged(v.tag, canon(v.value))
     if isinstance(v, list):
         return [canon(x) for x in v]
     if isinstance(v, Obj):
